@@ -44,20 +44,31 @@ impl Property for C12 {
         "C12"
     }
     fn rule(&self) -> String {
-        "sessions over a root r.td that includes i.td, where disk texts and editor buffers differ observably (each variant of i.td declares a differently named class, each variant of r.td uses one buffer class and the disk class, so outline and 'class not found' diagnostics reveal which text was analysed). Events: open/change of r.td or i.td with one of two buffer variants (a change of an unopened document is an open), close of either document (the disk is the truth again; checked at the next analysed step) and didSave of either document (no effect on which text is the truth; the disk keeps differing from the buffer, as after an external rewrite): every sequence of length <= 4 (thorough <= 6) over the 4 (document, variant) events, 2 closes and 2 saves exhaustively, each with i.td present on disk, with i.td never saved (no file on disk), and with an i.td that includes r.td back (include cycle through every edited document). Reference session model: texts = disk overlaid by the buffers of opened documents, root = last touched document. After every step the last published diagnostics of every file of the model's workspace and the documentSymbol answer of every open document in it must equal a fresh ide-level analysis over the model's texts. distinct = digest of the event sequence; non-trivial = a step at which an open included document's buffer differs from disk while the other document is (re)analysed".into()
+        "sessions over a root r.td that includes i.td, where disk texts and editor buffers differ observably (each variant of i.td declares a differently named class, each variant of r.td uses one buffer class and the disk class, so outline and 'class not found' diagnostics reveal which text was analysed). Events: open/change of r.td or i.td with one of two buffer variants (a change of an unopened document is an open), close of either document (the disk is the truth again; checked at the next analysed step), a touch of an unrelated third document (root of a workspace without r.td and i.td), a change of r.td to a text without its include, and didSave of either document (no effect on which text is the truth; the disk keeps differing from the buffer, as after an external rewrite): every sequence of length <= 4 (thorough <= 5) over the 4 (document, variant) events, 2 closes, 2 saves and the 2 workspace-leaving events exhaustively, each with i.td present on disk, with i.td never saved (no file on disk), and with an i.td that includes r.td back (include cycle through every edited document). Reference session model: texts = disk overlaid by the buffers of opened documents, root = last touched document. After every step the last published diagnostics of every file of the model's workspace and the documentSymbol answer of every open document in it must equal a fresh ide-level analysis over the model's texts. distinct = digest of the event sequence; non-trivial = a step at which an open included document's buffer differs from disk while the other document is (re)analysed".into()
     }
     fn assumptions(&self) -> Vec<String> {
         vec!["the disk is never modified during a session; the model takes the last touched document as root because that is what didOpen/didChange do; a close triggers no analysis, so its effect is observed at the next open/change".into()]
     }
     fn families(&self, ctx: &Ctx) -> Vec<Family> {
-        let maxlen = ctx.tier.pick(4usize, 6usize);
+        let maxlen = ctx.tier.pick(4usize, 5usize);
         vec![Family::new("all-sessions", 4, move |first, _r, emit| {
             for len in 1..=maxlen {
                 let mut idx = vec![0usize; len];
-                // the first event is an open (0..4); later events range over 0..8 (4, 5 = close r.td / i.td; 6, 7 = save)
+                // the first event is an open (0..4); later events range over 0..10 (4, 5 = close r.td / i.td; 6, 7 = save; 8 = unrelated document; 9 = r.td without its include)
                 idx[0] = first as usize;
                 loop {
-                    let ev: Vec<_> = idx.iter().map(|e| if *e < 4 { json!([e / 2, e % 2]) } else if *e < 6 { json!([e - 4, 2]) } else { json!([e - 6, 3]) }).collect();
+                    let ev: Vec<_> = idx
+                        .iter()
+                        .map(|e| match *e {
+                            0..=3 => json!([e / 2, e % 2]),
+                            4 | 5 => json!([e - 4, 2]),
+                            6 | 7 => json!([e - 6, 3]),
+                            // 8: an unrelated third document is touched (it becomes the root of a workspace
+                            // without r.td and i.td); 9: r.td is changed to a text without its include
+                            8 => json!([2, 0]),
+                            _ => json!([0, 4]),
+                        })
+                        .collect();
                     if !emit(json!({"kind": "buffer-session", "events": ev})) {
                         return;
                     }
@@ -78,7 +89,7 @@ impl Property for C12 {
                             break;
                         }
                         k -= 1;
-                        if idx[k] + 1 < 8 {
+                        if idx[k] + 1 < 10 {
                             idx[k] += 1;
                             break;
                         }
@@ -112,7 +123,22 @@ impl Property for C12 {
                 verdict = Some(Verdict::Skip("malformed-case"));
                 break;
             };
-            let (doc, b) = (doc as usize % 2, b as usize % 4);
+            if doc == 2 {
+                // an unrelated third document: while it is the root, r.td and i.td are outside the workspace
+                // (their buffers stay the truth all the same)
+                let text = format!("class Other{step};\n");
+                model.insert("o.td".to_string(), text.clone());
+                if !s.touch("o.td", &text) {
+                    verdict = Some(Verdict::Skip("not-idle"));
+                    break;
+                }
+                if let Err((what, detail)) = compare_with_fresh(&mut s, &model, "o.td") {
+                    verdict = Some(if what.is_empty() { Verdict::Skip("no-response") } else { Verdict::Fail(Failure::new("C12.diagnostics-not-from-buffers", format!("C12.unrelated-root:{what}"), format!("events {} step {step}: {detail}", case["events"]))) });
+                    break;
+                }
+                continue;
+            }
+            let (doc, b) = (doc as usize % 2, b as usize % 5);
             if b == 3 {
                 // save: the editor says it wrote the document; whatever is on disk, the buffer stays the
                 // truth for an open document (here the disk never changes, so it keeps differing)
@@ -137,7 +163,9 @@ impl Property for C12 {
                 }
                 continue;
             }
-            let text = buffer_text_in(doc, b, cyclic);
+            // variant 4 (of r.td only): the buffer without its include line - i.td leaves the workspace
+            let text = if b == 4 { "def r_alone;\n".to_string() } else { buffer_text_in(doc, b, cyclic) };
+            let doc = if b == 4 { 0 } else { doc };
             if doc == 0 && s.opened.contains("i.td") && model.get("i.td").map(|t| t != disk_i).unwrap_or(false) {
                 nontrivial = true;
             }
